@@ -62,7 +62,7 @@ def gen_case(rng, n_ops=None, invalid_rate=0.15, pf_level=True):
     funds = rng.choice([0.0, 1e5, 1e6, 2.5e5, -1.0]) if rng.random() < 0.9 else rng.uniform(0, 1e6)
     if funds < 0 and rng.random() < 0.7:
         funds = 1e6
-    case = dict(start=start, funds=funds, fee=gen_fee(rng), np_quotes=rng.random() < 0.8, ops=[])
+    case = dict(start=start, funds=funds, fee=gen_fee(rng), np_quotes=rng.random() < 0.8, ops=[], tzmix=rng.random() < 0.25)
     ops = case['ops']
     if funds < 0:
         return case
